@@ -415,6 +415,11 @@ pub fn gen_request(o: &GenOpts) -> ReqSpec {
     } else {
         None
     };
+    // (wave 17) `Expect: 100-continue` in front of a body: whatever a server makes of it (the tree ignores it) must not depend
+    // on how much of the body came with the head
+    if body.is_some() && !headers.iter().any(|(n, _)| n.eq_ignore_ascii_case("expect")) && t::chance(1, 10) {
+        headers.push((spell("Expect", o.name_case, true), b"100-continue".to_vec()));
+    }
     let cl_name = spell("Content-Length", o.name_case, true);
     let cl_pos = t::range(0, headers.len() as u64) as usize;
     ReqSpec { method, path, query, headers, body, cl_name, cl_pos }
